@@ -218,6 +218,14 @@ def scale(n):
     return max(1, int(n * f))
 
 
+def quick_extra_configs(sub):
+    if getattr(sub, "setup", None) is not None:
+        return []          # sub-checks with their own environment already span the back ends
+    if os.environ.get("VERIF_SAN") == "1":
+        return []          # sanitizer suites (C17) choose their configurations themselves
+    return [c for c in sub.thorough_configs if c not in sub.configs]
+
+
 def _worker(mod, pid, tier, vseed, worker, nworkers, only_sub, conn, journal=None):
     try:
         ctx = Ctx(pid, tier, vseed, worker, nworkers)
@@ -230,8 +238,12 @@ def _worker(mod, pid, tier, vseed, worker, nworkers, only_sub, conn, journal=Non
             if only_sub and sub.name != only_sub:
                 continue
             total = scale(sub.quick if tier == "quick" else sub.thorough)
-            cfgs = sub.configs if tier == "quick" else sub.thorough_configs
-            for cfg in cfgs:
+            cfgs = [(c, total) for c in (sub.configs if tier == "quick" else sub.thorough_configs)]
+            if tier == "quick":
+                # a tenth of the quick budget on every configuration that only the thorough tier would otherwise reach (32-bit words,
+                # baseline assembly, ...): the embedded targets are 32-bit, a defect confined to that word size must not wait for the thorough tier
+                cfgs += [(c, max(nworkers, total // 10)) for c in quick_extra_configs(sub)]
+            for cfg, total in cfgs:
                 cfg = san_cfg(cfg)
                 n = total // nworkers + (1 if worker < total % nworkers else 0)
                 if n <= 0:
@@ -350,7 +362,7 @@ def run_property(mod, pid, tier, vseed, nworkers=None, only_sub=None, extra_stat
     from . import lib as libmod
     cfgs = set()
     for sub in mod.SUBCHECKS:
-        for c in (sub.configs if tier == "quick" else sub.thorough_configs):
+        for c in (list(sub.configs) + quick_extra_configs(sub) if tier == "quick" else sub.thorough_configs):
             cfgs.add(san_cfg(c).split(":")[0])
     for c in sorted(cfgs):
         if c in build.CONFIGS:
